@@ -132,9 +132,30 @@ func vxH_C12_continue() {
 	kb := vxKeyBytes(K)
 	var exposed []*vxNode
 	round := func(c Collection) {
-		shape := vxChoose(3) // 0 top, 1 child, 2 both
+		shape := vxChoose(4) // 0 top, 1 child, 2 both, 3 only the grandchild a/g
 		b, berr := c.NewBatch(4, 64)
 		vxAssert("newbatch-ok", berr == nil)
+		if shape == 3 {
+			cb, cerr := b.NewChildCollectionBatch("a", BatchOptions{TotalOps: 2, TotalKeyValBytes: 16})
+			vxAssert("childbatch-ok", cerr == nil)
+			gb, gerr := cb.NewChildCollectionBatch("g", BatchOptions{TotalOps: 2, TotalKeyValBytes: 16})
+			vxAssert("grandchildbatch-ok", gerr == nil)
+			ents := vxFixedSet()
+			vxFillBatch(gb, ents)
+			if ref.kids["a"] == nil {
+				ref.kids["a"] = vxNewNode()
+			}
+			if ref.kids["a"].kids["g"] == nil {
+				ref.kids["a"].kids["g"] = vxNewNode()
+			}
+			g := ref.kids["a"].kids["g"]
+			g.layers = append(g.layers, ents)
+			vxAssert("executebatch-ok", c.ExecuteBatch(b, WriteOptions{}) == nil)
+			b.Close()
+			vxDrain(c)
+			exposed = append(exposed, vxCopyNode(ref))
+			return
+		}
 		if shape != 1 {
 			ents := vxFixedSet()
 			vxFillBatch(b, ents)
@@ -166,6 +187,7 @@ func vxH_C12_continue() {
 				break
 			}
 			vxCheckTree(tag+"-walked-back", cur, exposed[len(exposed)-1-i], K, kb, names, none)
+			vxCheckGrand(tag+"-walked-back", cur, exposed[len(exposed)-1-i], K, kb)
 			if i == steps {
 				return cur
 			}
@@ -216,6 +238,7 @@ func vxH_C12_continue() {
 	cs, cserr := coll.Snapshot()
 	vxAssert("coll-snapshot-ok", cserr == nil)
 	vxCheckTree("continued-coll", cs, ref, K, kb, names, none)
+	vxCheckGrand("continued-coll", cs, ref, K, kb)
 	cs.Close()
 	round(coll)
 	if s := walk("continued", -1); s != nil {
@@ -231,4 +254,27 @@ func vxH_C12_continue() {
 	}
 	coll.Close()
 	store.Close()
+}
+
+// vxCheckGrand: the grandchild a/g of snap exists and reads like the
+// reference exactly when the reference tree has it.
+func vxCheckGrand(tag string, snap Snapshot, ref *vxNode, K vxKey, kb []byte) {
+	var want *vxNode
+	if a := ref.kids["a"]; a != nil {
+		want = a.kids["g"]
+	}
+	var got []byte
+	has := false
+	if as, _ := snap.ChildCollectionSnapshot("a"); as != nil {
+		if gs, _ := as.ChildCollectionSnapshot("g"); gs != nil {
+			has = true
+			got, _ = gs.Get(kb, ReadOptions{})
+			gs.Close()
+		}
+		as.Close()
+	}
+	vxAssert(tag+"-grandchild-exists-iff-written", has == (want != nil))
+	if want != nil && has {
+		vxAssert(tag+"-grandchild-content", vxGotIs(got, vxRefGet(K, want.layers...)))
+	}
 }
